@@ -210,7 +210,7 @@ theorem C14_token_permit_full_fails :
 
 /-- Under authorization (`OIDC_SERVER_URL` set) a target is listed exactly when it is a configurable
     entity and one of the caller's groups equals its id or the ROC administrator group. -/
-theorem C14_listing_filtered (oidc rocEnv : Str) (groups entities : List Str) (id : Str)
+theorem C14_listing_filtered (oidc : Str) (rocEnv : Option Str) (groups entities : List Str) (id : Str)
     (ho : oidc ≠ []) :
     id ∈ reportAllTargets oidc rocEnv groups entities ↔
       id ∈ entities ∧ ∃ g ∈ groups, g = id ∨ g = rocAdmin rocEnv := by
@@ -223,7 +223,7 @@ theorem C14_listing_filtered (oidc rocEnv : Str) (groups entities : List Str) (i
     exact ⟨h1, g, hg, h2.imp Eq.symm (fun h => h)⟩
 
 /-- The listing never invents, reorders or duplicates targets: it is a sublist of the entity list. -/
-theorem C14_listing_sublist (oidc rocEnv : Str) (groups entities : List Str) :
+theorem C14_listing_sublist (oidc : Str) (rocEnv : Option Str) (groups entities : List Str) :
     List.Sublist (reportAllTargets oidc rocEnv groups entities) entities := by
   rw [reportAllTargets_facts]
   split
@@ -231,12 +231,47 @@ theorem C14_listing_sublist (oidc rocEnv : Str) (groups entities : List Str) :
   · exact List.Sublist.refl _
 
 /-- A caller without groups (in particular one without a `name`) is shown nothing under authorization. -/
-theorem C14_listing_no_groups (oidc rocEnv : Str) (entities : List Str) (ho : oidc ≠ []) :
+theorem C14_listing_no_groups (oidc : Str) (rocEnv : Option Str) (entities : List Str) (ho : oidc ≠ []) :
     reportAllTargets oidc rocEnv [] entities = [] := by
   rw [reportAllTargets_facts]; simp [ho]
 
+/-- The ROC-admin group has a name: the default `AetherROCAdmin`, or the value of the environment
+    variable of that name when it is non-empty — never the empty string, whether the variable is
+    unset, set, or set but empty.  (Depends on how the override is read: `os.Getenv … != ""`.) -/
+theorem C14_roc_admin_named (rocEnv : Option Str) :
+    rocAdmin rocEnv ≠ [] ∧
+    rocAdmin none = Generated.aetherROCAdmin.toList ∧ rocAdmin (some []) = Generated.aetherROCAdmin.toList ∧
+    (∀ v, v ≠ [] → rocAdmin (some v) = v) := by
+  refine ⟨rocAdmin_ne_nil rocEnv, by decide, by decide, ?_⟩
+  intro v hv
+  rw [rocAdmin_facts]; simp [hv]
+
+/-- Under authorization a caller is shown only targets named by a *real* (non-empty) group of its
+    own, unless a real group of its own is the ROC-admin group: the empty entries that
+    `strings.Split` yields for an absent / empty `groups` value or a trailing `;` open nothing —
+    whatever the override variable holds, including "defined but empty". -/
+theorem C14_listing_only_real_groups (oidc : Str) (rocEnv : Option Str) (groups entities : List Str) (id : Str)
+    (ho : oidc ≠ []) (hid : ∀ e ∈ entities, e ≠ [])
+    (h : id ∈ reportAllTargets oidc rocEnv groups entities) :
+    ∃ g ∈ groups, g ≠ [] ∧ (g = id ∨ g = rocAdmin rocEnv) := by
+  obtain ⟨hmem, g, hg, hor⟩ := (C14_listing_filtered oidc rocEnv groups entities id ho).mp h
+  refine ⟨g, hg, ?_, hor⟩
+  rcases hor with h1 | h1
+  · rw [h1]; exact hid id hmem
+  · rw [h1]; exact rocAdmin_ne_nil rocEnv
+
+/-- A caller without any real group (no `groups` value, an empty one, only separators) is shown
+    nothing under authorization. -/
+theorem C14_listing_groupless_sees_nothing (oidc : Str) (rocEnv : Option Str) (groups entities : List Str)
+    (ho : oidc ≠ []) (hid : ∀ e ∈ entities, e ≠ []) (hg : ∀ g ∈ groups, g = []) :
+    reportAllTargets oidc rocEnv groups entities = [] := by
+  apply List.eq_nil_iff_forall_not_mem.mpr
+  intro id hin
+  obtain ⟨g, hgm, hne, _⟩ := C14_listing_only_real_groups oidc rocEnv groups entities id ho hid hin
+  exact hne (hg g hgm)
+
 /-- Without authorization every configurable entity is listed. -/
-theorem C14_listing_open (rocEnv : Str) (groups entities : List Str) :
+theorem C14_listing_open (rocEnv : Option Str) (groups entities : List Str) :
     reportAllTargets [] rocEnv groups entities = entities := by
   rw [reportAllTargets_facts]; simp
 
@@ -273,9 +308,12 @@ example : ([("Name".toList, ["bob".toList]), ("GROUPS".toList, ["ops".toList])].
 example : setHandler sampleSetting sampleLookalike (fun _ => ⟨4, 1⟩) =
     .ok { outcome := .refused (some Code.unauthenticated), serverCalls := 0, appended := 0 } := by decide
 example : mdLookup [("authorization".toList, ["bearer x".toList])] kGroups = none := by decide
-example : reportAllTargets "http://dex".toList [] ["acme".toList] ["acme".toList, "starbucks".toList] =
+example : reportAllTargets "http://dex".toList none ["acme".toList] ["acme".toList, "starbucks".toList] =
     ["acme".toList] := by decide
-example : reportAllTargets "http://dex".toList [] ["AetherROCAdmin".toList] ["acme".toList, "starbucks".toList] =
+example : reportAllTargets "http://dex".toList (some []) ["AetherROCAdmin".toList] ["acme".toList, "starbucks".toList] =
     ["acme".toList, "starbucks".toList] := by decide
+example : reportAllTargets "http://dex".toList (some []) (splitOn ';' "acme;".toList) ["acme".toList, "starbucks".toList] =
+    ["acme".toList] := by decide
+example : (∀ e ∈ ["acme".toList, "starbucks".toList], e ≠ []) ∧ (∀ g ∈ splitOn ';' ([] : Str), g = []) := by decide
 
 end OnosVerif.Props.C14
